@@ -18,6 +18,7 @@ include hr
 
 theorem battrParse_ext (a : Str) : Ext (battrParse rec env a) (battrParse rec' env a) := by
   have h := replaceInline_ext hr env
+  have hm := macrosRender_ext hr env
   unfold battrParse; ext_go
 
 theorem verifyMacroLine_ext (mt : Match) (r : Reader) : Ext (verifyMacroLine rec env mt r) (verifyMacroLine rec' env mt r) := by
